@@ -309,6 +309,7 @@ def ops_alphabet (w, thorough):
       for prio in (0, 1):
         for mode in ("plain", "once", "weak", "byname"):
           ops.append(("sub", hid, "E1", prio, mode))
+      ops.append(("sub", hid, "E1", -1, "plain"))          # below the default priority
     if not busy("E2") and hid < 2:
       ops.append(("sub", hid, "E2", 0, "plain"))
   for hid in sorted(used):
@@ -335,7 +336,8 @@ def apply_op (w, op):
   if k == "sub":
     _, hid, et, prio, mode = op
     if mode != "plain": w.feats.add("sub." + mode)
-    if prio: w.feats.add("sub.prio1")
+    if prio > 0: w.feats.add("sub.prio1")
+    if prio < 0: w.feats.add("sub.prio-1")
     if et == "E3": w.feats.add("E3")
     w.do_sub(hid, et, prio, mode)
   elif k == "unsub-handler":
